@@ -113,7 +113,7 @@ def sym_vec(m, n, name, seed, dtype=DT):
     return p, vs
 
 
-def run_paths(H, case, prog, selftest_keys=None, **kw):
+def run_paths(H, case, prog, selftest_keys=None, raised=None, **kw):
     """iterate feasible paths of prog under the engine; yields (ctx, value).  Engine failures are recorded as
     'not encoded' (never a pass).  The first concrete-following path is differentially self-tested."""
     kw.setdefault('max_paths', 32 if H.quick else 128)
@@ -122,6 +122,12 @@ def run_paths(H, case, prog, selftest_keys=None, **kw):
             H.absorb(pr.ctx)
             if pr.error is not None:
                 H.engine_error(case, pr.error)
+                continue
+            if pr.raised is not None:
+                if raised is not None:
+                    raised(pr.ctx, pr.raised)       # the harness decides what an exception on this path means
+                else:
+                    H.engine_error(case, pr.raised)
                 continue
             yield pr.ctx, pr.value
     except BoundExhausted as e:
